@@ -113,7 +113,7 @@ materialised (`Op.den` is a specification: its `Product` case nests unevaluated 
 instance : Inhabited (MatV GRat) := ⟨MatV.of zeroM⟩
 
 partial def evalOp (code : Bool) (A : Op GRat) : MatV GRat :=
-  let fac (M : Op GRat) : FacAct GRat := ⟨M.rows, M.cols, (evalOp code M).f, fun _ m => m⟩
+  let fac (M : Op GRat) : FacAct GRat := ⟨M.rows, M.cols, (evalOp code M).f, fun _ m => MatV.of m⟩
   -- C01's code model of `Transpose(B) @ X` / `Adjoint(B) @ X`: through `B._rmatmat`, whose default takes
   -- the conjugation shortcut when `B.isa(SelfAdjoint)` (wrong when the annotation is: `scalar-times-annotated`)
   let shortcut (B : Op GRat) : Bool := code && !B.hasExplicitRmm && B.isa .selfAdjoint
